@@ -67,17 +67,17 @@ class C19(object):
                 c['vector'] = False
                 c['L'] = rng.randint(1, 2)
             if kind == 'binning':
-                m = rng.randint(2, 30)
+                m = rng.choice([rng.randint(2, 30), rng.randint(2, 30), rng.randint(100, 320)])
                 style = rng.choice(['maxent', 'uniform'])
                 ties = rng.random() < 0.4
                 if ties:
                     ts = [float(rng.randint(0, 5)) for _ in range(m)]
                 else:
-                    ts = rng.sample([i / 8.0 for i in range(-80, 81)], m)
+                    ts = rng.sample([i / 8.0 for i in range(-80, 81)] if m <= 160 else [i / 8.0 for i in range(-400, 401)], m)
                 # ranges from 1e-3 to 1e7: the slack 1e-12 in uniform_binning's denominator is absorbed for big ranges
                 scale = rng.choice([1.0, 1.0, 2.0 ** -10, 1024.0, 2.0 ** 20])
                 ts = [x * scale for x in ts]
-                c.update({'ts': ts, 'bins': rng.randint(1, 6), 'style': style, 'ties': ties, 'scale': scale})
+                c.update({'ts': ts, 'bins': rng.randint(1, 9), 'style': style, 'ties': ties, 'scale': scale})
             yield c
 
     def shrink(self, case):
